@@ -57,6 +57,8 @@ pub struct World {
     pub landing: Option<(u64, u64)>,
     /// intercept cpuid leaves 0x8000_0008 / 0x8000_000a
     pub cpuid_intercept: bool,
+    /// rolling hash of every event trace of the current run (for the determinism proof)
+    pub evhash: u64,
 }
 
 static mut WORLD: *mut World = core::ptr::null_mut();
@@ -88,6 +90,7 @@ pub fn world() -> &'static mut World {
                 mon_overrun: false,
                 landing: None,
                 cpuid_intercept: true,
+                evhash: 0,
             });
             WORLD = Box::into_raw(w);
             install_handlers();
@@ -189,6 +192,28 @@ pub fn die_in_handler(w: &World, what: &str, rip: u64, addr: u64) -> ! {
 }
 
 impl World {
+    /// fold the current event trace into the run's event hash
+    pub fn fold_trace(&mut self) {
+        for e in &self.cpu.trace {
+            // host addresses (table bases, native return addresses) differ between processes
+            // under ASLR and are not part of the simulated behaviour: leave them out
+            let s = match e {
+                Ev::Lgdt { limit, .. } => format!("lgdt {limit}"),
+                Ev::Lidt { limit, .. } => format!("lidt {limit}"),
+                Ev::Iretq { cs, ss, .. } => format!("iretq {cs:x} {ss:x}"),
+                Ev::Retfq { cs, .. } => format!("retfq {cs:x}"),
+                // refusal texts quote raw descriptors, which may hold host addresses
+                Ev::Fault { vec, why } => format!("fault {vec} {}", why.split(':').next().unwrap_or("")),
+                e => format!("{e:?}"),
+            };
+            let mut h = 0xcbf2_9ce4_8422_2325u64;
+            for b in s.bytes() {
+                h = (h ^ b as u64).wrapping_mul(0x100_0000_01b3);
+            }
+            self.evhash = (self.evhash ^ h).wrapping_mul(0x100_0000_01b3).rotate_left(23) ^ 0x9E37_79B9;
+        }
+    }
+
     pub fn set_label(&mut self, s: &str) {
         let n = s.len().min(96);
         self.ctx_label[..n].copy_from_slice(&s.as_bytes()[..n]);
@@ -652,6 +677,7 @@ unsafe fn install_handlers() {
 pub fn sut_call<T>(label: &str, f: impl FnOnce() -> T) -> Result<T, String> {
     let w = world();
     w.set_label(label);
+    w.fold_trace();
     w.cpu.trace.clear();
     w.cpu.faults = 0;
     w.traps = 0;
